@@ -8,6 +8,7 @@ R12.3 validate, then mutate: in every function that mutates the tree of its `sel
       explicit user-triggerable `raise` and no call that can raise one is reachable after the first mutation of that tree
       (path sensitive, callees specialised by constant arguments; a raising-then-mutating callee is analysed itself).
 R12.4 = R20.5 (options rejected before anything is touched).
+R12.6 admission guards: every path that installs caller-supplied code checks "not circular" and "not consumed" before the first mutation.
 Not decided: implicit exceptions (AttributeError / IndexError from a corrupted intermediate state); that the next valid
 edit satisfies C01.
 """
@@ -44,6 +45,8 @@ def run(ctx):
 
 
 # ----------------------------------------------------------------------------------------------------------------------
+    check_admission_guards(ctx)
+
 
 def check_lock_typestate(ctx):
     ctx.rule('R12.1', 'every _modifying(...) / _Modifying(...) is the context expression of a `with`, or uses the manual protocol: '
@@ -500,3 +503,61 @@ def check_kernel_lock(ctx):
                           'after the edit (source and Constant.value diverge) and a concurrent nested edit is not refused', c.lineno, sample=norm(c, 70))
             if n == 0:
                 raise AnalysisError(f'{fi.key}: no handler dispatch found')
+
+
+# ---- R12.6 -----------------------------------------------------------------------------------------------------------
+
+def check_admission_guards(ctx):
+    """The kernel (_put_one, _put_slice) admits a caller-supplied FST only after two checks made before anything is touched: it is not the
+    tree's own root (circular put) and it still has its AST (not consumed / deleted).  An entry point that installs caller-supplied code
+    *without* going through the kernel (FST.replace on the root: `self._lines = code._lines; self._set_ast(code.a, ...)`) must make the same
+    checks before its first mutation, otherwise a consumed tree is grafted (`code.a` is None) after the source lines were already replaced."""
+    from ..cfg import CFG, subnodes
+    ctx.rule('R12.6', 'every path that installs caller-supplied code (kernel or direct) checks "not circular" and "not consumed" before the first mutation', 3)
+
+    def guards(fn, code_name):
+        """cfg node ids of raises guarded by `<code> is self[.root]` / `not <code>.a`"""
+        cfg = CFG(fn)
+        circ, cons = set(), set()
+        for nd in cfg.nodes:
+            if nd.kind != 'test' or nd.ast is None:
+                continue
+            t = nd.ast if isinstance(nd.ast, ast.expr) else getattr(nd.ast, 'test', None)
+            if t is None:
+                continue
+            for x in ast.walk(t):
+                if isinstance(x, ast.Compare) and len(x.ops) == 1 and isinstance(x.ops[0], ast.Is) and norm(x.left) == code_name and \
+                        norm(x.comparators[0]) in ('self', 'self.root', 'root'):
+                    circ.add(nd.id)
+                if isinstance(x, ast.UnaryOp) and isinstance(x.op, ast.Not) and norm(x.operand) == code_name + '.a':
+                    cons.add(nd.id)
+        return cfg, circ, cons
+
+    sites = [('fst_put_one', '_put_one'), ('fst_put_slice', '_put_slice'), ('fst', 'FST.replace')]
+    for mod, q in sites:
+        for fi in ctx.repo.funcs(mod, q):
+            if 'code' not in fi.params():
+                raise AnalysisError(f'{q}: parameter `code` vanished')
+            cfg, circ, cons = guards(fi.node, 'code')
+            # first "installation" of the code: the handler dispatch in the kernel, the direct graft in replace()
+            inst = []
+            for nd in cfg.nodes:
+                for x in subnodes(cfg, nd):
+                    if isinstance(x, ast.Call) and call_name(x) == '_set_ast' and x.args and norm(x.args[0]).startswith('code'):
+                        inst.append(nd)
+                    elif isinstance(x, ast.Assign) and norm(x.targets[0]) == 'self._lines':
+                        inst.append(nd)
+                    elif isinstance(x, ast.Call) and call_name(x) == '_modifying' and q != 'FST.replace':
+                        inst.append(nd)
+            if not inst:
+                raise AnalysisError(f'{q}: no installation point found')
+            for name, gset in (('circular put (`code is self` / `self.root`)', circ), ('consumed tree (`not code.a`)', cons)):
+                unguarded = cfg.reachable(cfg.entry, lambda n_, lab, s: lab != 'exc', stop=gset) | {cfg.entry}
+                bad = [nd for nd in inst if nd.id in unguarded and nd.id not in gset]
+                # paths of replace() that go through the kernel (non-root: parent._put_one) are guarded there
+                if q == 'FST.replace':
+                    bad = [nd for nd in bad if not any(isinstance(x, ast.Call) and call_name(x) in ('_put_one', '_put_slice') for x in subnodes(cfg, nd))]
+                ctx.check('R12.6', bool(gset) and not bad, fi.module, fi.qualname, f'{name} before installing `code`',
+                          f'caller-supplied code is installed on a path that did not check for a {name.split(" (")[0]}: e.g. a consumed FST (its .a is None) '
+                          f'is grafted after the source lines were already replaced, leaving the tree without an AST', (bad[0].lineno if bad else fi.lineno),
+                          sample={'function': fi.key, 'guard': name, 'guard_sites': len(gset)})
